@@ -317,6 +317,9 @@ def main(argv=None):
     parser.add_argument("--replay")
     parser.add_argument("--shards", type=int, default=None)
     parser.add_argument("--no-evidence", action="store_true")
+    parser.add_argument("--no-regress", action="store_true",
+                        help="developer option (sensitivity measurements): skip the committed regress replays so "
+                             "that only generation and the exhaustive parts can find a change")
     args = parser.parse_args(argv)
     prop_id = args.prop.upper()
     try:
@@ -354,7 +357,7 @@ def main(argv=None):
     regress_dir = os.path.join(ROOT, "regress", prop_id)
     regress_ctx = Ctx(prop_id, args.tier, seed, replaying=True)
     regress_n = 0
-    if os.path.isdir(regress_dir):
+    if os.path.isdir(regress_dir) and not args.no_regress:
         for name in sorted(os.listdir(regress_dir)):
             if not name.endswith(".json"):
                 continue
